@@ -131,6 +131,9 @@ def link(rep, c, sfx):
         ctx = hirq.Ctx(fn)
         starts = [n for n in walk(fn["body"]) if kind(n) == "Struct" and n.get("path") == QT + "::Start"]
         conditional_start = bool(starts) and all(any(g[0] == "if" for g in ctx.guards(s)) for s in starts)
+        for n_ in walk(fn["body"]):
+            if kind(n_) == "Struct" and str(n_.get("path", "")).startswith(QT + "::") and not n_.get("exp"):
+                r.instance("site:%s:%s" % (fn["path"].split("::")[-1], n_["path"].split("::")[-1]), where(n_))
         for (ev, out) in exits(pe.paths()):
             ei = hirq.index_of(ev, lambda e: e.kind == "struct" and e.node.get("path") == QT + "::End")
             if ei < 0:
